@@ -700,8 +700,14 @@ class ExecutionState:
                 overflow_op = self._overflow_queue.get_nowait()
                 op_size = self._calculate_operation_size(overflow_op)
 
-                if total_size + op_size > self._batcher_config.max_batch_size_bytes:
-                    # Put back and stop
+                if (
+                    batch
+                    and total_size + op_size
+                    > self._batcher_config.max_batch_size_bytes
+                ):
+                    # Put back and stop. An operation that alone exceeds the size
+                    # limit must still go out (as the only sized operation of its
+                    # batch), otherwise it would be put back forever.
                     self._overflow_queue.put(overflow_op)
                     break
 
